@@ -388,7 +388,9 @@ func runWorker(id, tier string, i, n int, out string) int {
 			ck.Run(c)
 			if len(ck.Flows) > 0 {
 				RunFlows(c, ck.Flows...)
-				RunFlowsConcurrent(c, ck.Flows...)
+				if c.NWorkers > 1 { // a single-worker check (C16) leaves the concurrent pass to the checks that share its oracle (C04, C15)
+					RunFlowsConcurrent(c, ck.Flows...)
+				}
 			}
 			for _, s := range WBCaps() {
 				c.Cap(s)
